@@ -166,6 +166,30 @@ def fmt(x) -> str:
     return str(x)
 
 
+def corpus_calls(ctx: vf.Ctx):
+    """corpus/C02/call-*.json: witnesses of (fixed) findings about is_compatible / _is_respecting: run first."""
+    import json
+    from bqskit.ir.circuit import Circuit
+    from bqskit.compiler.machine import MachineModel
+    from bqskit.passes.control import foreach as fe
+    gt = W.gate_table()
+    for f in sorted((vf.ROOT / 'corpus' / 'C02').glob('call-*.json')):
+        d = json.loads(f.read_text())
+        m = MachineModel(d['n'], [tuple(e) for e in d['edges']], {gt[g] for g in d['gates']})
+        c = Circuit(d['width'])
+        for g, loc in d['ops']:
+            c.append_gate(gt[g], loc, [0.1] * gt[g].num_params)
+        if d['call'] == 'is_compatible':
+            got = bool(m.is_compatible(c, d['placement']))
+        else:
+            got = bool(fe._is_respecting(c, d['loc'], m, d['fully']))
+        ctx.case(('corpus', f.stem), nontrivial=True)
+        ctx.count('corpus_call')
+        if got != d['expected']:
+            ctx.violation(dict(call=d['call'], symptom='corpus_witness_fails'), dict(corpus=f.name, **d), d['expected'], got,
+                          'a corpus witness of a fixed finding fails again')
+
+
 def correspondence(ctx: vf.Ctx, count: int):
     from bqskit.ir.circuit import Circuit  # noqa: F401
     from bqskit.compiler.machine import MachineModel
@@ -249,7 +273,7 @@ def correspondence(ctx: vf.Ctx, count: int):
             has_bar = any(g == 'barrier2' for g, _ in ops)
             mono = all(plx[min(a, b)] <= plx[max(a, b)] for g, loc in ops for a, b in itertools.combinations(loc, 2))
             if impl != indep and not has_bar:
-                sig = dict(call='is_compatible', symptom='nonmonotone_placement' if not mono else 'wrong_verdict')
+                sig = dict(call='is_compatible', symptom='wrong_verdict', monotone_placement=mono)
                 ctx.violation(sig, dict(n=n, edges=es, gates=gs, width=w, ops=ops, placement=pl), indep, impl,
                               'MachineModel.is_compatible differs from the independent check (native gates, coupling after placement)')
             lines.append(f'spec {mtxt(n, gs, es)} {ctxt(w, ops)} {fmt(plx)}')
@@ -272,7 +296,7 @@ def correspondence(ctx: vf.Ctx, count: int):
                       and all(tuple(sorted((loc[a], loc[b]))) in edges_s for g, l in new_ops for a, b in itertools.combinations(l, 2)))
             if (impl_r == 'T') != want_r:
                 inc = all(loc[min(a, b)] <= loc[max(a, b)] for g, l in new_ops for a, b in itertools.combinations(l, 2))
-                ctx.violation(dict(call='_is_respecting', symptom='wrong_verdict' if inc else 'unsorted_location'),
+                ctx.violation(dict(call='_is_respecting', symptom='wrong_verdict', increasing_location=inc),
                               dict(n=n, edges=es, gates=gs, loc=loc, block=new_ops, fully=fully), want_r, impl_r == 'T',
                               '_is_respecting differs from its documented meaning (block can run on the machine at the location)')
             lines.append(f'resp {mtxt(n, gs, es)} {ctxt(bw, new_ops)} {fmt(loc)} {fmt(fully)}')
@@ -351,6 +375,7 @@ def run(ctx: vf.Ctx):
     if ctx.broken:
         W.theorem_failure_search(ctx, 'c02', 420 if ctx.quick() else 1200, judge, thorough_jobs)
     # ---- correspondence ---------------------------------------------------------------------
+    corpus_calls(ctx)
     if ctx.extract_ok.get('wfcompat'):
         correspondence(ctx, ctx.n(400, 4000))
     # ---- supporting real-compile() search ------------------------------------------------------
